@@ -16,8 +16,11 @@ for pid, ks in srctie.KERNELS.items():
         fn = srctie.find_function(tree, sp["func"])
         if fn is not None:
             pins["%s::%s" % (sp["file"], sp["func"])] = [a.arg for a in fn.args.args] + ["*" + a.arg for a in fn.args.kwonlyargs]
+            if fn.decorator_list:
+                pins["%s::%s#decorators" % (sp["file"], sp["func"])] = [ast.unparse(d) for d in fn.decorator_list]
             if sp.get("pin_skeleton"):
                 pins["%s::%s#skeleton:%s" % (sp["file"], sp["func"], sp["target"])] = srctie.kernel_skeleton(fn, sp["target"])
+pins["#auto_unsqueeze_args"] = srctie.decorator_source(repo)
 out = os.path.join(os.path.dirname(os.path.abspath(__file__)), "..", "harness", "srctie_params.json")
 json.dump(pins, open(out, "w"), indent=1, sort_keys=True)
 print(len(pins), "signatures pinned")
